@@ -11,7 +11,7 @@ import (
 
 func init() {
 	commands["C02"] = func(r *Rng, n int, replay string) { runH(r, n, false) }
-	commands["C17"] = func(r *Rng, n int, replay string) { runH(r, n, true) }
+	commands["C17"] = func(r *Rng, n int, replay string) { defer runC17Retaining(700000); runH(r, n, true) }
 }
 
 type hShadow struct {
